@@ -4,7 +4,10 @@ export GOFLAGS=-mod=mod GOPROXY=off GOSUMDB=off GOTOOLCHAIN=local
 set -e
 sc=$1; n=${2:-1000}; seed=${3:-1}; shift; shift || true; shift || true
 W=/verif/.work/${DEVTAG:-dev}; mkdir -p $W
-(cd /verif/sim && go1.26.8 test -c -tags verif -o $W/sim.test ./simtest)
+# build from a private copy so that files other people are still writing (SKIP="a.go b.go") do not break this build
+SRC=$W/src; mkdir -p $SRC; EX=""; for f in $SKIP; do EX="$EX --exclude=$f"; done
+rsync -a --delete $EX /verif/sim/ $SRC/
+(cd $SRC && go1.26.8 test -c -tags verif -o $W/sim.test ./simtest)
 cd $W
 set +e
 /usr/bin/time -f "%es wall" env GOMAXPROCS=1 ./sim.test -test.run '^TestSim$' -sim.scenario=$sc -sim.seed=$seed -sim.count=$n "$@" > out.txt 2> err.txt
